@@ -224,13 +224,28 @@ func gen(r *hx.Rand, n int, tier string, emit func(string), st *hx.Stats) {
 		if len(m.Types) < 2 {
 			continue
 		}
+		// a relation whose rewrite names `this` more than once (only expressible through the JSON API) makes the
+		// streaming pipeline hang when the relation is recursive (reported to C21): keep a small share of them
+		if maxThis(m) > 1 && !c.Chance(1, 10) {
+			continue
+		}
 		base := fga.GenTuples(c, m, 4+c.Intn(18))
 		strat := m.Stratified()
 		for k := 0; k < 3 && i < n; k++ {
-			rq := fga.GenReq(c, m, base)
-			typ := fga.TypeOf(rq.Obj)
-			rq.Obj = typ + ":" + placeholder
-			tuples := widen(c, base, typ)
+			// prefer requests with a non-empty answer: draw up to 6 and keep the first one on which the real
+			// classic engine returns something (or fails), with probability 5/6
+			var rq fga.Req
+			var typ string
+			var tuples []fga.Tuple
+			for try := 0; try < 12; try++ {
+				rq = fga.GenReq(c, m, base)
+				typ = fga.TypeOf(rq.Obj)
+				rq.Obj = typ + ":" + placeholder
+				tuples = widen(c, base, typ)
+				if c.Chance(1, 12) || probeNonEmpty(m, ts, tuples, rq) {
+					break
+				}
+			}
 			var ctxT []fga.Tuple
 			if c.Chance(1, 3) {
 				seen := map[string]bool{}
@@ -281,6 +296,45 @@ func gen(r *hx.Rand, n int, tier string, emit func(string), st *hx.Stats) {
 			}
 		}
 	}
+}
+
+func maxThis(m *fga.Model) int {
+	best := 0
+	var count func(rw *fga.Rewrite) int
+	count = func(rw *fga.Rewrite) int {
+		n := 0
+		if rw.Kind == "this" {
+			n = 1
+		}
+		for _, k := range rw.Kids {
+			n += count(k)
+		}
+		return n
+	}
+	for _, t := range m.Types {
+		for _, rd := range t.Rels {
+			if c := count(rd.Rewrite); c > best {
+				best = c
+			}
+		}
+	}
+	return best
+}
+
+// probeNonEmpty runs the real classic engine once to see whether the request has a non-empty answer.
+func probeNonEmpty(m *fga.Model, ts *typesystem.TypeSystem, tuples []fga.Tuple, rq fga.Req) bool {
+	mem := fgarun.Store(tuples)
+	defer mem.Close()
+	resolver, closer, err := graph.NewOrderedCheckResolvers(graph.WithLocalCheckerOpts(
+		graph.WithResolveNodeBreadthLimit(3), graph.WithMaxResolutionDepth(25),
+		graph.WithPlanner(&fgarun.ForcedPlanner{Want: "default"}), graph.WithOptimizations(true))).Build()
+	if err != nil {
+		return false
+	}
+	defer closer()
+	w := &world{ts: ts, ds: mem, resolver: resolver, breadth: 3, typ: fga.TypeOf(rq.Obj), rq: rq}
+	r := w.list(engines[0], 1000, stdDeadline)
+	return r != "-" && r != "E:invalid"
 }
 
 // ---- executor --------------------------------------------------------------------------------
@@ -622,18 +676,31 @@ func exec(line string, st *hx.Stats) string {
 	}
 	out = append(out, "ed="+w.edges(m))
 	out = append(out, "re="+w.reverseExpand())
+	hung := map[string]bool{} // an engine that did not return once is not run again on this case
 	for _, e := range engines {
 		for _, l := range []uint32{1, 2, 3, 1000} {
 			name := fmt.Sprint(l)
 			if l == 1000 {
 				name = "i"
 			}
-			out = append(out, fmt.Sprintf("%s%s=%s", e.key, name, w.list(e, l, stdDeadline)))
+			r := "HANG"
+			if !hung[e.key] {
+				r = w.list(e, l, stdDeadline)
+			}
+			if r == "HANG" {
+				hung[e.key] = true
+				st.Inc("exec:hang-" + e.key)
+			}
+			out = append(out, fmt.Sprintf("%s%s=%s", e.key, name, r))
 		}
 	}
 	out = append(out, "c0="+w.list(engines[0], 0, stdDeadline))
 	out = append(out, "sc="+w.streamed(engines[0]))
-	out = append(out, "sp="+w.streamed(engines[2]))
+	if hung["p"] {
+		out = append(out, "sp=HANG")
+	} else {
+		out = append(out, "sp="+w.streamed(engines[2]))
+	}
 	st.Inc("exec:std")
 	return strings.Join(out, " ")
 }
